@@ -25,6 +25,8 @@ enum Mode {
 enum Subject {
 	/// raw file of `len` pseudo-random bytes, read through DataReaderFile::read_range
 	Raw { len: u32, seed: u32 },
+	/// raw file of `mib` MiB read in ranges of up to 16 MiB (results compared by length and hash)
+	RawBig { mib: u8, seed: u32 },
 	/// container fixture (versatiles, pmtiles or tar), read through get_tile_data (+ streams)
 	Container(Leaf),
 }
@@ -40,8 +42,9 @@ struct Case {
 
 fn strategy(max_calls: u16) -> impl Strategy<Value = Case> {
 	let subject = prop_oneof![
-		2 => (1024u32..4_000_000, any::<u32>()).prop_map(|(len, seed)| Subject::Raw { len, seed }),
-		3 => (leaf_any_pair(14, 16), 0usize..3, any::<bool>(), any::<u32>()).prop_map(|(mut leaf, t, enc, seed)| {
+		40 => (1024u32..4_000_000, any::<u32>()).prop_map(|(len, seed)| Subject::Raw { len, seed }),
+		1 => (9u8..=40, any::<u32>()).prop_map(|(mib, seed)| Subject::RawBig { mib, seed }),
+		60 => (leaf_any_pair(14, 16), 0usize..3, any::<bool>(), any::<u32>()).prop_map(|(mut leaf, t, enc, seed)| {
 			let target = [Target::Versatiles, Target::Pmtiles, Target::Tar][t];
 			if !target.accepts(leaf.spec.format, leaf.spec.comp) {
 				leaf.spec.format = vt::model::Fmt::Png;
@@ -56,6 +59,8 @@ fn strategy(max_calls: u16) -> impl Strategy<Value = Case> {
 #[derive(Clone, Debug)]
 enum Op {
 	Range(u64, u64),
+	/// like `Range`, the result is reduced to (length, hash)
+	RangeDigest(u64, u64),
 	Lookup(Coord),
 	Stream(u8, (u32, u32, u32, u32)),
 }
@@ -67,6 +72,20 @@ enum Res {
 	None,
 	Err,
 	Tiles(Vec<(Coord, Vec<u8>)>),
+	Digest(u64, u64),
+}
+
+fn digest(b: &[u8]) -> Res {
+	// 8 bytes at a time: fast enough for hundreds of MiB per case
+	let mut h = 0x9E3779B97F4A7C15u64;
+	let mut it = b.chunks_exact(8);
+	for c in &mut it {
+		h = (h ^ u64::from_le_bytes(c.try_into().unwrap())).wrapping_mul(0x100000001b3).rotate_left(23);
+	}
+	for x in it.remainder() {
+		h = (h ^ *x as u64).wrapping_mul(0x100000001b3);
+	}
+	Res::Digest(b.len() as u64, h)
 }
 
 fn expected_raw(data: &[u8], off: u64, len: u64) -> Res {
@@ -86,6 +105,10 @@ async fn run_op(h: &Handle, op: &Op) -> Res {
 	match (h, op) {
 		(Handle::Raw(r), Op::Range(off, len)) => match r.read_range(&ByteRange::new(*off, *len)).await {
 			Ok(b) => Res::Bytes(b.into_vec()),
+			Err(_) => Res::Err,
+		},
+		(Handle::Raw(r), Op::RangeDigest(off, len)) => match r.read_range(&ByteRange::new(*off, *len)).await {
+			Ok(b) => digest(b.as_slice()),
 			Err(_) => Res::Err,
 		},
 		(Handle::Tiles(r), Op::Lookup(c)) => match r.get_tile_data(&c.vt()).await {
@@ -139,6 +162,41 @@ fn oracle(case: &Case, obs: &mut Obs) -> Result<(), Fail> {
 				plans.push(plan);
 			}
 			obs.label("subject:raw-file");
+		}
+		Subject::RawBig { mib, seed } => {
+			let len = (*mib as usize) << 20;
+			// a short random block repeated with its block number mixed in: cheap to produce, and a
+			// read from a wrong position gives another hash
+			let block = Mix::new(*seed as u64).bytes(4096);
+			let mut data = Vec::with_capacity(len);
+			let mut k = 0u64;
+			while data.len() < len {
+				data.extend_from_slice(&k.to_le_bytes());
+				data.extend_from_slice(&block[8..]);
+				k += 1;
+			}
+			let path = util::tmp_path(".bin");
+			guards.push(TmpGuard(path.clone()));
+			std::fs::write(&path, &data).map_err(|e| Fail::new("harness:io", e.to_string()))?;
+			let r = DataReaderFile::open(&path).map_err(|e| Fail::new("concurrent:open", format!("{e:#}")))?;
+			handle = Handle::Raw(Arc::new(r));
+			for t in 0..callers {
+				let mut m = Mix::new(case.seed as u64 ^ ((t as u64) << 32) ^ 0xB16);
+				let mut plan = vec![];
+				for _ in 0..calls.min(8) {
+					let l = match m.below(8) {
+						0 => 1 + m.below(100_000),
+						1 => (4 << 20) - 1 + m.below(3), // around 4 MiB
+						2..=5 => (4 << 20) + 1 + m.below(4 << 20),
+						_ => (8 << 20) + m.below(8 << 20),
+					}
+					.min(len as u64);
+					let off = m.below(len as u64 - l + 1);
+					plan.push((Op::RangeDigest(off, l), digest(&data[off as usize..(off + l) as usize])));
+				}
+				plans.push(plan);
+			}
+			obs.label("subject:raw-file-9-40MiB-ranges-to-16MiB");
 		}
 		Subject::Container(leaf) => {
 			let set: TileSet = leaf.spec.materialise();
@@ -261,7 +319,7 @@ fn oracle(case: &Case, obs: &mut Obs) -> Result<(), Fail> {
 	obs.count("calls", total);
 	obs.label(format!("mode:{:?}", case.mode));
 	obs.label(match callers { 2..=3 => "callers=2..3", 4..=8 => "callers=4..8", _ => "callers=9..16" });
-	obs.nontrivial(callers >= 2 && plans.iter().filter(|p| p.len() >= 50).count() >= 2);
+	obs.nontrivial(callers >= 2 && plans.iter().filter(|p| p.len() >= 50 || matches!(case.subject, Subject::RawBig { .. })).count() >= 2);
 	if let Some((t, i, op, got, want)) = first_bad.lock().unwrap().take() {
 		let show = |r: &Res| match r {
 			Res::Bytes(b) => format!("{} bytes ({})", b.len(), util::hex_short(b)),
@@ -280,7 +338,7 @@ fn main() {
 	let mut check = Check::from_args(
 		"C13",
 		"exploration",
-		"subjects: raw files of 1 KiB-4 MB read through DataReaderFile::read_range (ranges of 0..200 000 bytes incl. ranges at and beyond the end of the file) and container fixtures (versatiles, pmtiles, tar; written by the repository or the harness encoders) read through get_tile_data (stored and missing coordinates) and, for versatiles, level streams; 2..16 callers start behind a barrier as OS threads with their own runtimes or as tasks on one multi-threaded runtime and issue generated call lists; oracle: every call's result equals the result computed sequentially from the in-memory copy (bytes, None, or error class); non-trivial = at least two callers with >= 50 calls each",
+		"subjects: raw files of 1 KiB-4 MB read through DataReaderFile::read_range (ranges of 0..200 000 bytes incl. ranges at and beyond the end of the file), raw files of 9-40 MiB read in ranges of up to 16 MiB (compared by length and hash) and container fixtures (versatiles, pmtiles, tar; written by the repository or the harness encoders) read through get_tile_data (stored and missing coordinates) and, for versatiles, level streams; 2..16 callers start behind a barrier as OS threads with their own runtimes or as tasks on one multi-threaded runtime and issue generated call lists; oracle: every call's result equals the result computed sequentially from the in-memory copy (bytes, None, or error class); non-trivial = at least two callers with >= 50 calls each (large-range cases: at least two callers)",
 	);
 	check.assume("the kernel schedule is not controlled: this is stress exploration over real interleavings, not schedule enumeration");
 	check.workers = check.workers.min(4);
